@@ -80,6 +80,42 @@ def typed_texts(program):
     return sum(1 for v in types.values() if len(v) >= 2)
 
 
+ERROR_CLASS = ("error", "hook_error", "undefined", "pending", "cleanup_error")
+
+
+def status_floor(ref, program):
+    """scenario instance name -> "error" | "failed": what the RUN (reference model: step outcomes, hook and
+    cleanup faults) demands of the scenario's final status class, independent of what behave's model says
+    afterwards.  Dry-run programs are left out (known finding F25: an untested step before an undefined one)."""
+    if (program.get("cfg") or {}).get("dry_run"):
+        return {}
+    floor = {}
+    for name, statuses in ref.steps.items():
+        for x in statuses or []:
+            # the first step with a problem decides (later undefined steps are only discovered)
+            if x in ERROR_CLASS:
+                floor[name] = "error"
+                break
+            if x == "failed":
+                floor[name] = "failed"
+                break
+            if x is None:
+                break
+    kinds = set(k for _i, k in program.get("hook_faults") or [])
+    if kinds - set(["Exception", "AssertionError"]):
+        # interrupts / aborts / run-time skips in hooks end the run or exclude elements: only the
+        # steps that are known to have run count (no hook-error floor)
+        return {} if ("KeyboardInterrupt" in kinds or "abort" in kinds) else floor
+    for kind, name in list(ref.hook_error_elems) + list(ref.cleanup_error_elems):
+        if kind == "scenario":
+            floor[name] = "error"
+    return floor
+
+
+def status_class(name):
+    return "error" if name in ERROR_CLASS else name
+
+
 def check_verdict(res, prefix, ref, run):
     if run.escaped is not None:
         res.fail(prefix + ".escape", "exception escaped run(): %r" % (run.escaped,))
